@@ -7,6 +7,7 @@ import (
 	"go/ast"
 	"go/types"
 	"sort"
+	"strings"
 
 	"golang.org/x/tools/go/ssa"
 )
@@ -157,6 +158,25 @@ func (env *Env) callExpr(c *ast.CallExpr) Value {
 		return Value{T: tFloat, S: env.x.intToFloat(env.s, v.S)}
 	case "fp_lt":
 		return Value{T: tBool, S: app("fp.lt", arg(0).S, arg(1).S)}
+	case "gf": // ghost field of an object: gf(p, "name") — an integer cell attached to p
+		pv := arg(0)
+		name, ok := c.Args[1].(*ast.BasicLit)
+		if !ok {
+			env.fail("gf(p, \"name\")")
+		}
+		key := "H:ghost.$" + strings.Trim(name.Value, "\"")
+		env.x.regKey(key, arrSort(sInt, sInt))
+		return Value{T: tInt, S: env.s.read(env.hp, key, pv.S)}
+	case "gfs", "gff": // string / float64 ghost fields
+		pv := arg(0)
+		nm := c.Args[1].(*ast.BasicLit)
+		sort, gt := sStr, tString
+		if name == "gff" {
+			sort, gt = sFP, tFloat
+		}
+		key := "H:ghost." + name + ".$" + strings.Trim(nm.Value, "\"")
+		env.x.regKey(key, arrSort(sInt, sort))
+		return Value{T: gt, S: env.s.read(env.hp, key, pv.S)}
 	case "T": // abstract content of a mast snapshot: ghost map akey -> crdt.Value
 		v := arg(0)
 		return Value{T: env.x.v.ghostTreeType(), S: v.S}
@@ -166,6 +186,8 @@ func (env *Env) callExpr(c *ast.CallExpr) Value {
 			v = env.x.makeIface(env.s, v, types.NewInterfaceType(nil, nil))
 		}
 		return Value{T: tInt, S: env.x.akeyOf(env.s, env.hp, v)}
+	case "iface2": // an interface value from its (tag, box) pair
+		return ifaceVal(types.NewInterfaceType(nil, nil), arg(0).S, arg(1).S)
 	case "iface": // box a value into interface{} (nil stays the nil interface)
 		v := arg(0)
 		it := types.NewInterfaceType(nil, nil)
@@ -246,9 +268,17 @@ func (env *Env) applyUF(uf *UFunc, c *ast.CallExpr) Value {
 		for j, t := range flatten(v) {
 			args = append(args, t)
 			sorts = append(sorts, leavesOf(v.T)[j].Sort)
+			// atomic integer arguments are instantiation candidates for universals
+			if sorts[len(sorts)-1] == sInt && !strings.ContainsAny(t, "( ") {
+				env.s.trigger(sInt, t)
+			}
 		}
 	}
-	rt := env.resolveTypeStr(uf.Result)
+	tenv := *env
+	if p := env.x.v.typesPkg(uf.Pkg); p != nil {
+		tenv.pkg = p
+	}
+	rt := tenv.resolveTypeStr(uf.Result)
 	ls := leavesOf(rt)
 	if len(ls) != 1 {
 		env.fail("ufunc %s: result must be a single leaf", uf.Name)
